@@ -49,6 +49,11 @@ func (g *genC19) Config(rng *Rng, tier string) Config {
 		g.exports[nb/3+rng.Intn(nb-nb/3)] = true
 	}
 	g.exports[nb-1] = true
+	if rng.Chance(1, 3) {
+		// an emission schedule that has bottomed out (or is about to) when the export happens
+		c.Mint.TokensPerBlock = rng.Pick64(0, 3, 10, 40)
+		c.Mint.MintDecrease = rng.Pick64(blocksPerYear, 2*blocksPerYear)
+	}
 	return c
 }
 
